@@ -66,6 +66,7 @@ image_case = st.fixed_dictionaries({
     "shapes": st.lists(shape_st, min_size=1, max_size=3),
     "negate": st.booleans(),
     "cube": st.sampled_from(["2d", "2d", "3d", "4d"]),
+    "intpix": st.sampled_from([False, False, False, True]),      # file routes: image stored as 16-bit integers
     "planes": st.integers(2, 3),
     "route": st.sampled_from(["plane", "file", "file", "cli"]),
     "seed": st.integers(0, 2 ** 31 - 1),
@@ -157,6 +158,11 @@ def check_image(c):
     rng = np.random.default_rng(c["seed"])
     plane = rng.normal(size=(nr, nc)).astype(np.float32)
     pre_nan = rng.random((nr, nc)) < (0.08 if c["seed"] % 3 == 0 else 0.0)      # blanks already in the input
+    intpix = bool(c.get("intpix")) and c["route"] != "plane"
+    if intpix:
+        # the image is stored with BITPIX 16: whole numbers, and no blanks in the input (integers cannot hold NaN)
+        plane = np.round(plane * 100).astype(np.float32)
+        pre_nan[:] = False
     negate = c["negate"]
     expect_blank = inside if negate else ~inside
     tags = dict(negate=negate, route=c["route"])
@@ -181,7 +187,7 @@ def check_image(c):
                 arr = np.stack([first] + [plane + k for k in range(1, nplanes)])
             else:
                 arr = np.stack([first] + [plane + k for k in range(1, nplanes)])[None]
-            hdu = fits.PrimaryHDU(arr.copy())
+            hdu = fits.PrimaryHDU(arr.astype(np.int16) if intpix else arr.copy())
             for k, v in w.header_cards().items():
                 hdu.header[k] = v
             infile = os.path.join(d_tmp, "in.fits")
